@@ -131,12 +131,54 @@ def proof_stage(pid):
     if len(blocks) < len(theorems):
         res["errors"].append("%d theorems but only %d Print Assumptions audits" % (len(theorems), len(blocks)))
     res["discharged"] = min(closed, len(theorems))
+    if pid in ("C08", "C15"):
+        # the lexer's tables, translated from /repo/libvore/ast/lexer.go on every run, against the model's tables
+        lt = lexer_tables(args)
+        res["theorems"] = res["theorems"] + lt["theorems"]
+        res["obligations"] += len(lt["theorems"])
+        res["discharged"] += lt["closed"]
+        res["assumptions"] += lt["assumptions"]
+        res["errors"] += lt["errors"]
+        res["translator"] = "lextab: libvore/ast/lexer.go -> coq/Generated/LexGen.v (regenerated on this run), checked by coq/Separate/LexTables.v"
     bad = scan_forbidden()
     if bad:
         res["errors"].append("forbidden constructs: " + "; ".join(bad[:10]))
     res["ok"] = not res["errors"] and res["discharged"] == res["obligations"] and res["obligations"] > 0
     res["checker_cmd"] = "make -C coq (coq_makefile, full .vo build) && coqc Properties/%s.v  # Print Assumptions parsed" % pid
     return res
+
+
+def lexer_tables(args):
+    """build and run the translator /verif/lextab on /repo's lexer.go, compile the generated tables and Separate/LexTables.v; returns theorems / closed / errors"""
+    out = {"theorems": [], "closed": 0, "assumptions": [], "errors": []}
+    pf = os.path.join(COQ, "Separate", "LexTables.v")
+    out["theorems"] = re.findall(r"\b(?:Theorem|Corollary)\s+(\w+)", strip_comments(open(pf).read()))
+    import vh
+    exe = os.path.join(vh.scratch(), "vlextab")
+    pb = subprocess.run(["go", "build", "-o", exe, "."], cwd=os.path.join(VERIF, "lextab"), env=dict(vh.GOENV), capture_output=True, text=True)
+    if pb.returncode != 0:
+        out["errors"].append("lextab does not build: " + (pb.stdout + pb.stderr)[-500:])
+        return out
+    gen = os.path.join(COQ, "Generated", "LexGen.v")
+    pr = subprocess.run([exe, "/repo/libvore/ast/lexer.go", gen], capture_output=True, text=True)
+    if pr.returncode != 0:
+        out["errors"].append("the lexer's tables are no longer in the shape the translator reads (%s): the tie by translation is broken" % (pr.stderr.strip()[-300:]))
+        return out
+    pg = subprocess.run(["timeout", "600"] + args + [gen], cwd=COQ, capture_output=True, text=True)
+    if pg.returncode != 0:
+        out["errors"].append("generated lexer tables do not compile: " + (pg.stdout + pg.stderr)[-500:])
+        return out
+    p = subprocess.run(["timeout", "600"] + args + [pf], cwd=COQ, capture_output=True, text=True)
+    txt = p.stdout + p.stderr
+    if p.returncode != 0:
+        out["errors"].append("the model's lexer tables are not the tables of lexer.go as it is now (Separate/LexTables.v): " + txt[-900:])
+        return out
+    blocks = [b for b in re.split(r"(?=Closed under the global context|Axioms:)", txt) if b.startswith("Closed under") or b.startswith("Axioms:")]
+    out["assumptions"] = [b.strip()[:400] for b in blocks]
+    out["closed"] = min(sum(1 for b in blocks if b.startswith("Closed under the global context")), len(out["theorems"]))
+    if out["closed"] < len(out["theorems"]):
+        out["errors"].append("LexTables.v: %d theorems, %d closed" % (len(out["theorems"]), out["closed"]))
+    return out
 
 
 def load_known():
